@@ -564,3 +564,51 @@ pub fn short(v: &Val) -> String {
     let s = format!("{v:?}");
     if s.chars().count() > 160 { format!("{}...", s.chars().take(160).collect::<String>()) } else { s }
 }
+
+/// Visit every `error-context` leaf of a value (typed walk; an error-context is
+/// a plain `Val::U` holding the index in the guest's table).
+pub fn for_each_errctx(resolve: &Resolve, v: &mut Val, ty: &Type, f: &mut dyn FnMut(&mut Val)) {
+    use wit_parser::TypeDefKind as K;
+    match ty {
+        Type::ErrorContext => f(v),
+        Type::Id(id) => match &resolve.types[*id].kind {
+            K::Type(t) => for_each_errctx(resolve, v, t, f),
+            K::List(t) => {
+                if let Val::List(xs) = v {
+                    xs.iter_mut().for_each(|x| for_each_errctx(resolve, x, t, f));
+                }
+            }
+            K::Record(r) => {
+                if let Val::Record(xs) = v {
+                    xs.iter_mut().zip(r.fields.iter()).for_each(|(x, fd)| for_each_errctx(resolve, x, &fd.ty, f));
+                }
+            }
+            K::Tuple(t) => {
+                if let Val::Record(xs) = v {
+                    xs.iter_mut().zip(t.types.iter()).for_each(|(x, t)| for_each_errctx(resolve, x, t, f));
+                }
+            }
+            K::Variant(vr) => {
+                if let Val::Variant(d, Some(p)) = v {
+                    if let Some(t) = vr.cases[*d as usize].ty {
+                        for_each_errctx(resolve, p, &t, f);
+                    }
+                }
+            }
+            K::Option(t) => {
+                if let Val::Variant(1, Some(p)) = v {
+                    for_each_errctx(resolve, p, t, f);
+                }
+            }
+            K::Result(r) => {
+                if let Val::Variant(d, Some(p)) = v {
+                    if let Some(t) = if *d == 0 { r.ok } else { r.err } {
+                        for_each_errctx(resolve, p, &t, f);
+                    }
+                }
+            }
+            _ => {}
+        },
+        _ => {}
+    }
+}
